@@ -97,7 +97,7 @@ func init() {
 			cases = append(cases, Case{"cmd": "scalar", "field": "value", "vals": fr}, Case{"cmd": "scalar", "field": "meter", "vals": mt})
 			cases = append(cases, Case{"cmd": "scalar", "field": "velocity", "vals": dynamics})
 			bp := []string{}
-			for _, b := range []int{1, 2, 3, 4, 59, 60, 100, 120, 121, 240, 999, 1000, 65535, 65536, 1000000, 60000000} {
+			for _, b := range []int{4, 5, 59, 60, 100, 120, 121, 240, 999, 1000, 65535, 65536, 1000000, 59999999, 60000000} { // (the tempi a MIDI event can carry; C07 owns the rest)
 				bp = append(bp, fmt.Sprint(b))
 			}
 			cases = append(cases, Case{"cmd": "scalar", "field": "bpm", "vals": bp})
@@ -107,7 +107,7 @@ func init() {
 				Case{"cmd": "scalar", "field": "base", "vals": []string{"03", "08", "09", "010", "b010", "0012"}},
 				Case{"cmd": "scalar", "field": "value", "vals": []string{"01", "08", "09", "010", "1/08", "1/010", "010/08", "0100/0100", "007/0960", "00000000000000000000012"}},
 				Case{"cmd": "scalar", "field": "meter", "vals": []string{"03/04", "08/08", "09/08", "010/08", "012/010", "6/008"}},
-				Case{"cmd": "scalar", "field": "bpm", "raw": true, "vals": []string{"0120", "090", "08", "0100", "000060"}})
+				Case{"cmd": "scalar", "field": "bpm", "raw": true, "vals": []string{"0120", "090", "08", "0100", "000060", "004"}})
 			for i := 0; i < nc; i++ {
 				o := GenOpt{MaxLen: 8, RestP: 0.25, KeyP: 0.2, SettingP: 0.2, TextP: 0.3, Fractions: true, MultiVals: true, MaxDeg: 15, AllMarks: true, BassP: 0.4,
 					Syms: allSymbols(), Texts: sampleTexts, FirstChord: true}
